@@ -39,6 +39,12 @@ Proof.
   - eapply okP_bind; [apply okP_read|]. intros b _. now apply okP_ret.
 Qed.
 
+Lemma okP_node sz c : okP T c -> okP T (node sz c).
+Proof.
+  intros Hc. unfold node. eapply okP_bind; [exact Hc|]. intros v _.
+  eapply okP_bind; [apply okP_emit|]. intros _ _. now apply okP_ret.
+Qed.
+
 Lemma okB_pos B : okB B = true -> 1 <= B <= 16.
 Proof. intros H. apply okB_okwidth in H. unfold okwidth in H. lia. Qed.
 
@@ -53,6 +59,7 @@ Proof.
   intros Hc. unfold chunked_items. cbv zeta.
   assert (H1: forall k, okP T (one_chunk esz k c)).
   { intros k. unfold one_chunk. eapply okP_bind; [apply okP_emit|]. intros _ _.
+    eapply okP_bind; [apply okP_emit|]. intros _ _.
     eapply okP_weaken; [|apply okP_rep; exact Hc]. unfold T; auto. }
   eapply okP_bind with (Q := T).
   - destruct (n / chunk_len esz =? 0); [now apply okP_ret|].
@@ -73,7 +80,8 @@ Proof.
   assert (Hcl: 0 < chunk_len B) by (apply chunk_len_pos; unfold max_prealloc; lia).
   set (cl := chunk_len B) in *.
   assert (H1: forall k, okP (fun bs => length bs = N.to_nat (k * B)) (one_bulk B k)).
-  { intros k. unfold one_bulk. eapply okP_bind; [apply okP_emit|]. intros _ _. apply okP_read. }
+  { intros k. unfold one_bulk. eapply okP_bind; [apply okP_emit|]. intros _ _.
+    eapply okP_bind; [apply okP_emit|]. intros _ _. apply okP_read. }
   eapply okP_bind with (Q := fun full => length (concat full) = N.to_nat ((n / cl) * (cl * B))).
   - destruct (N.eqb_spec (n / cl) 0) as [E|E].
     + apply okP_ret. rewrite E. reflexivity.
@@ -140,8 +148,8 @@ Proof.
         eapply okP_bind; [apply okP_emit|]. intros _ _. now apply okP_ret. }
       destruct t; try exact Hgen.
       cbn [wf_ty] in Ht. eapply okP_bind; [apply okP_bulk; now apply okB_pos|]. intros bs _. now apply okP_ret. }
-    assert (Hrep: okP T (rep n (dec t))).
-    { eapply okP_weaken; [|apply okP_rep; now apply IH]. unfold T; auto. }
+    assert (Hrep: okP T (rep n (node sz (dec t)))).
+    { eapply okP_weaken; [|apply okP_rep; apply okP_node; now apply IH]. unfold T; auto. }
     destruct k.
     + eapply okP_bind; [exact Hvec|]. intros items _. now apply okP_ret.
     + eapply okP_bind; [exact Hvec|]. intros items _. now apply okP_ret.
@@ -163,6 +171,7 @@ Proof.
     eapply okP_bind; [now apply IHa|]. intros x _. eapply okP_bind; [now apply IHb|]. intros y _. now apply okP_ret.
   - (* TBox *) intros sz t IH Ht.
     eapply okP_bind; [apply okP_emit|]. intros _ _. eapply okP_bind; [apply okP_emit|]. intros _ _.
+    eapply okP_bind; [apply okP_emit|]. intros _ _.
     eapply okP_bind; [now apply IH|]. intros v _. eapply okP_bind; [apply okP_emit|]. intros _ _. now apply okP_ret.
   - (* TDuration *) intros _. eapply okP_bind; [apply okP_read|]. intros s _.
     eapply okP_bind; [apply okP_read|]. intros n _.
@@ -208,7 +217,7 @@ Proof.
                    else last <- one_bulk B (n mod cl) ;; Ret (concat full ++ last))) known bs) = rd (n * B) bs).
   { cbv zeta. apply (chunked_read_is_one_read (one_bulk B) B known (chunk_len B) n).
     - apply chunk_len_pos. unfold max_prealloc. lia.
-    - intros k bs0. unfold one_bulk. rewrite runo_emit. apply runo_read. }
+    - intros k bs0. unfold one_bulk. rewrite !runo_emit. apply runo_read. }
   destruct known; cbn [andb]; [|exact Hbody].
   destruct (avail (n * B) bs) eqn:Ha; cbn [negb]; [exact Hbody|].
   unfold rd. now rewrite Ha.
@@ -217,9 +226,9 @@ Qed.
 Theorem chunked_items_is_rep esz n c : esz <= max_prealloc -> oeq (chunked_items esz n c) (rep n c).
 Proof.
   intros H. unfold chunked_items, one_chunk. cbv zeta.
-  apply (chunked_is_rep val c (fun k => emit (HAlloc (sat_mul k esz)))).
+  apply (chunked_is_rep val c (fun k => emit (HAlloc (sat_mul k esz)) ;;; emit (HReal (sat_mul k esz)))).
   - now apply chunk_len_pos.
-  - intros k B p. apply oeq_emit.
+  - intros k B p known bs. reflexivity.
 Qed.
 
 (* ------------------------------------------------------------------ *)
@@ -238,11 +247,15 @@ Qed.
 Lemma keq_bulk B n : 1 <= B <= 16 -> keq (bulk_bytes B n).
 Proof. intros HB bs. now rewrite !bulk_spec. Qed.
 
+Lemma keq_emit_seq A h (p : prog A) : keq p -> keq (emit h ;;; p).
+Proof. intros Hp bs. apply Hp. Qed.
+
+Lemma keq_node sz c : keq c -> keq (node sz c).
+Proof. intros Hc. unfold node. apply keq_bind; [exact Hc|]. intros v. apply keq_emit_seq. apply keq_ret. Qed.
+
 Lemma keq_oeq A (p q : prog A) : oeq p q -> keq q -> keq p.
 Proof. intros H Hq bs. rewrite !H. apply Hq. Qed.
 
-Lemma keq_emit_seq A h (p : prog A) : keq p -> keq (emit h ;;; p).
-Proof. intros Hp bs. apply Hp. Qed.
 
 Theorem dec_known_irrelevant_mut :
   (forall t, wf_ty t = true -> keq (dec t)) /\
@@ -276,7 +289,7 @@ Proof.
         - intros l. apply keq_emit_seq. apply keq_ret. }
       destruct t; try exact Hgen.
       cbn [wf_ty] in Ht. apply keq_bind; [apply keq_bulk; now apply okB_pos|]. intros; apply keq_ret. }
-    assert (Hrep: keq (rep n (dec t))) by (apply keq_rep; now apply IH).
+    assert (Hrep: keq (rep n (node sz (dec t)))) by (apply keq_rep; apply keq_node; now apply IH).
     destruct k.
     + apply keq_bind; [exact Hvec|]. intros; apply keq_ret.
     + apply keq_bind; [exact Hvec|]. intros; apply keq_ret.
@@ -291,7 +304,7 @@ Proof.
     destruct t; try exact Hgen. apply keq_read. intros; apply keq_ret.
   - intros a IHa b IHb H. apply andb_prop in H as [Ha Hb].
     apply keq_bind; [now apply IHa|]. intros x. apply keq_bind; [now apply IHb|]. intros; apply keq_ret.
-  - intros sz t IH Ht. apply keq_emit_seq, keq_emit_seq. apply keq_bind; [now apply IH|]. intros. apply keq_emit_seq, keq_ret.
+  - intros sz t IH Ht. apply keq_emit_seq, keq_emit_seq, keq_emit_seq. apply keq_bind; [now apply IH|]. intros. apply keq_emit_seq, keq_ret.
   - intros _. apply keq_read. intros s. apply keq_read. intros n.
     destruct (a_billion <=? le_dec n); [apply keq_fail|apply keq_ret].
   - intros B msb H. apply andb_prop in H as [HB HB8].
